@@ -10,6 +10,7 @@ import OpcuaModel.Model.SrvNotify
     browsecls <refTypeId> <inc 0|1> <other 0|1> → plain | loop
     interval <int64 of time.Duration(ms)>    → subms | small | huge
     revise <ms>                              → revised publishing interval in ms
+    rawframe <declared size>                 → <out>     (a raw frame after HEL/ACK)
     signedchunk <chunkLen> <sigLen>          → <out>
     notify <drained> <w>                     → served | blocked   (write number w of a node monitored by a subscription
                                                 whose goroutine stalled after receiving <drained> notifications)
@@ -66,6 +67,10 @@ def handle : List String → String
       | some true => "served"
       | _ => "blocked"
     | _, _ => "bad-op"
+  | ["rawframe", n] =>
+    match n.toNat? with
+    | some k => showOut (rawFrameOutcome k)
+    | none => "bad-op"
   | ["signedchunk", l, s] =>
     match l.toNat?, s.toNat? with
     | some a, some b => showOut (signedChunkOutcome a b)
